@@ -55,6 +55,27 @@ CHECKS = {
   text="Exploration over spec prefixes, exhaustive 13-symbol alphabet strings, line-structured documents, soup and mutations; the stated exception (paragraph/setext continuation of a definition) is skipped and counted. Held on the executions observed.",
   note="Trusted: fingerprint of the public API; reading of the exception in DESIGN C16.",
   ref="DESIGN.md section 6 C16"),
+ "C07": dict(
+  technique="runtime monitor: every safe-mode (and raw-free default-mode) output is tokenized by an independent WHATWG data-state tokenizer and checked against the renderer's element/attribute vocabulary, nesting discipline, absence of comment/doctype tokens and '<' in text, and well-formedness of every character reference",
+  text="Exploration: injection payloads placed by templates into every attribute-bound position (destination, title, alt text, info string, autolink, definition, list start), injection soup, HTML soup, line-structured and mutated documents, exhaustive short strings over an injection alphabet; 3-5 renderer configurations per input. Held on the outputs observed.",
+  note="Trusted: my tokenizer (DESIGN Appendix B), the HTML5 entity-name fixture generated from python3.",
+  ref="DESIGN.md section 6 C07"),
+ "C17": dict(
+  technique="runtime monitor: filtered vs unfiltered output compared by a two-pointer '<' -> '&lt;' matcher, and the filtered output tokenized by an independent WHATWG data-state tokenizer whose start-tag names are put to the predicate",
+  text="Exploration: exhaustive strings over {<,>,!,-,?,/,script,SP,\",a,LF} up to 5/6 symbols, templates mixing comments/CDATA/PIs/declarations/stray '<'/quoted '>' with raw-text elements as HTML blocks and inline, HTML soup; 5 predicates (GFM, all, none, 2 name sets) per tree. Held on the outputs observed.",
+  note="Trusted: my tokenizer held in the data state; name-set predicates over [a-z0-9] names.",
+  ref="DESIGN.md section 6 C17"),
+ "C18": dict(
+  technique="offline checker over recorded events: Walk callbacks record (Pre/Post, node, parent, parent block, index); the list is compared with a reference traversal under the same seeded policy (prune set, abort point, nil callbacks, custom child functions); cursor invariants asserted at each event",
+  text="Exploration: 16 (quick) / 200 (thorough) policies per parsed tree over spec, generated and pathological (depth > 2000) trees; every child-function mode on every tree. Held on the event lists observed.",
+  note="Trusted: the 20-line recursive reference traversal.",
+  ref="DESIGN.md section 6 C18"),
+ "C19": dict(
+  engine="cmcheck-race",
+  technique="Go race detector over a stress workload (concurrent Parse of distinct inputs; concurrent Render in all configurations through shared and private renderers, AppendBlock, Format, Walk, accessors on one shared tree, yields injected in client callbacks), plus a result-equality monitor against sequential results and a tree-unchanged check; race reports counted from GORACE logs and de-duplicated by entry-point pair",
+  text="Exploration: 320 (quick) / 20 000 (thorough) rounds of 32+48 goroutines, GOMAXPROCS alternating 2/16; evidence reports operations per kind, overlapping operations and the high-water mark of simultaneous library calls; a run without overlap or without the -race build is inconclusive. Interleavings are sampled, not enumerated.",
+  note="Trusted: the Go race detector (sees only executed accesses).",
+  ref="DESIGN.md section 6 C19"),
 }
 
 NOT_YET = {}
